@@ -77,9 +77,19 @@ inductive Sep where
 structure WLRecipe where
   list       : Option WordList
   length     : Int
-  sep        : Sep
+  /-- `SeparatorChar`: the constant separator, used only when no function is set. -/
+  sepChar    : Word := []
+  /-- `SeparatorFunc` (`none` = nil). -/
+  sepFunc    : Option Sep := none
   capitalize : String
   deriving Repr
+
+/-- The separator `Generate` and `Entropy()` both go by: `SeparatorFunc` when it is set ("If nil
+just use SeparatorChar"), the constant `SeparatorChar` otherwise. -/
+def WLRecipe.sep (r : WLRecipe) : Sep :=
+  match r.sepFunc with
+  | some f => f
+  | none => .char r.sepChar
 
 /-- One call of the separator function: the separator and the integer `D` with
 `entropy = log2 D` (`sfWrap` maps a failed generation to `("", 0)`, i.e. `D = 1`). -/
